@@ -13,6 +13,7 @@ import (
 	"regexp"
 	"sort"
 	"strings"
+	"time"
 
 	"verifharness/drv"
 	"verifharness/emit"
@@ -174,7 +175,9 @@ func scan(e env, resp *opfix.Resp) map[string]bool {
 
 type obs struct {
 	panicked bool
+	hung     bool
 	hit      bool
+	single   bool   // exactly one response: one WriteHeader and at most one JSON document in the body
 	class    string // KOk K302 K302Err K302ErrElsewhere K4xx K5xx KInactive KOther
 	oerr     string
 	creds    []string
@@ -189,6 +192,7 @@ func observe(e env, fl flow, resp *opfix.Resp) obs {
 		o.panicked = true
 		return o
 	}
+	o.single = resp.Writes == 1 && oneDocument(resp)
 	found := scan(e, resp)
 	for _, c := range credOrder {
 		if found[c] {
@@ -230,7 +234,24 @@ func observe(e env, fl flow, resp *opfix.Resp) obs {
 	return o
 }
 
+// oneDocument: a JSON body holds exactly one JSON value (a second answer appended to the
+// first would be a second value).
+func oneDocument(resp *opfix.Resp) bool {
+	if !strings.HasPrefix(resp.Header.Get("Content-Type"), "application/json") || strings.TrimSpace(resp.Body) == "" {
+		return true
+	}
+	dec := json.NewDecoder(strings.NewReader(resp.Body))
+	var v any
+	if dec.Decode(&v) != nil {
+		return true // not JSON after all (plain-text error): nothing to count
+	}
+	return !dec.More()
+}
+
 func (o obs) coq() string {
+	if o.hung {
+		return "OHang"
+	}
 	if o.panicked {
 		return "OPanic"
 	}
@@ -238,7 +259,7 @@ func (o obs) coq() string {
 	for i, m := range o.journal {
 		ms[i] = coqMethod(m)
 	}
-	return emit.Ctor("Obs", emit.Bool(o.hit), o.class, emit.Str(o.oerr), emit.List(o.creds), emit.List(ms))
+	return emit.Ctor("Obs", emit.Bool(o.hit), emit.Bool(o.single), o.class, emit.Str(o.oerr), emit.List(o.creds), emit.List(ms))
 }
 
 // ---------------------------------------------------------------- runs
@@ -264,8 +285,26 @@ func (p plan) coq() string {
 	return "PNone"
 }
 
-// one run: fresh store and provider, fault-free preparation, then the request under test
-func run(fl flow, r opfix.Router, in incid, p plan) (o obs, prepErr string) {
+// sendTimeout bounds every request: a handler that does not return is an observed outcome.
+const sendTimeout = 10 * time.Second
+
+// guarded runs f and reports a panic text or a time-out.
+func guarded(f func()) (panicked string, hung bool) {
+	done := make(chan string, 1)
+	go func() { done <- drv.Catch(f) }()
+	select {
+	case p := <-done:
+		return p, false
+	case <-time.After(sendTimeout):
+		return "", true
+	}
+}
+
+// one run: fresh store and provider, fault-free preparation, then the request under test.
+// warm: the whole flow (preparation + request) is first served once, fault free, by the same
+// provider instance, and prepared again (fresh code / tokens), so that anything the library
+// keeps between requests is populated before the fault is injected.
+func run(fl flow, r opfix.Router, in incid, p plan, warm bool) (o obs, prepErr string) {
 	st := opfix.NewStd()
 	f, err := opfix.New(st, opfix.Options{})
 	if err != nil {
@@ -273,13 +312,24 @@ func run(fl flow, r opfix.Router, in incid, p plan) (o obs, prepErr string) {
 	}
 	e := env{f: f, r: r, in: in}
 	var send func() *opfix.Resp
-	if pe := drv.Catch(func() { send = fl.prep(e) }); pe != "" {
-		return obs{}, pe
+	if warm {
+		var first *opfix.Resp
+		pe, hung := guarded(func() { first = fl.prep(e)() })
+		if pe != "" || hung || first == nil || first.Panic != "" || first.Status >= 400 {
+			return obs{}, fmt.Sprint("warm-up run failed: ", pe, hung, first)
+		}
+	}
+	if pe, hung := guarded(func() { send = fl.prep(e) }); pe != "" || hung {
+		return obs{}, fmt.Sprint("preparation: ", pe, hung)
 	}
 	st.ResetJournal()
 	st.FaultAt, st.FaultMethod, st.FaultKind = p.at, p.raw, p.kind
 	var resp *opfix.Resp
-	if pe := drv.Catch(func() { resp = send() }); pe != "" { // opfix.Do already recovers handler panics
+	pe, hung := guarded(func() { resp = send() }) // opfix.Do already recovers handler panics
+	if hung {
+		return obs{hung: true}, ""
+	}
+	if pe != "" {
 		return obs{panicked: true, hit: st.FaultHit, journal: journalOf(e)}, ""
 	}
 	st.FaultAt, st.FaultMethod = 0, ""
@@ -317,66 +367,68 @@ func main() {
 			if r == opfix.Legacy {
 				router = "RLegacy"
 			}
-			base, perr := run(fl, r, in, plan{})
-			runs++
-			if perr != "" {
-				skipped = append(skipped, fmt.Sprintf("%s %v %s: %s", fl.name, fl.tags, r, perr))
-				continue
-			}
-			emitCase := func(p plan, o obs, kth string) {
-				tags := append([]string{"flow=" + fl.name, "router=" + r.String()}, fl.tags...)
-				switch {
-				case p.at > 0:
-					tags = append(tags, "plan=at", fmt.Sprintf("k=%d", p.at), "kind="+p.kind, "method="+kth)
-				case p.method != "":
-					tags = append(tags, "plan=method", "kind="+p.kind, "method="+p.method)
-				default:
-					tags = append(tags, "plan=none")
+			for _, warm := range []bool{false, true} {
+				base, perr := run(fl, r, in, plan{}, warm)
+				runs++
+				if perr != "" {
+					skipped = append(skipped, fmt.Sprintf("%s %v %s: %s", fl.name, fl.tags, r, perr))
+					continue
 				}
-				w.Add(emit.Case{Input: emit.Ctor("Req", router, fl.coq, p.coq()), Observed: o.coq(), Tags: tags,
-					Human: map[string]any{"status": o.status, "class": o.class, "error": o.oerr, "creds": o.creds, "journal": o.journal, "hit": o.hit, "panic": o.panicked}})
-				if survey {
-					fmt.Printf("%-9s %-28s %-40s %-22s -> %d %s %q %v hit=%v %v\n", r, fl.name, strings.Join(fl.tags, ","), p.coq(), o.status, o.class, o.oerr, o.creds, o.hit, o.journal)
-				}
-			}
-			emitCase(plan{}, base, "")
-			// "every call of method m fails": in the quick tier only where it is not the same run as
-			// a k-th-call plan, i.e. for methods the fault-free run calls more than once
-			seen := map[string]string{}
-			count := map[string]int{}
-			var ms []string
-			for i, m := range base.journal {
-				count[m]++
-				if _, ok := seen[m]; !ok {
-					seen[m] = base.raw[i]
-				}
-			}
-			for m := range seen {
-				if !cfg.Quick || count[m] > 1 {
-					ms = append(ms, m)
-				}
-			}
-			sort.Strings(ms)
-			for _, kind := range []string{"error", "deadline"} {
-				for k := 1; k <= len(base.journal); k++ {
-					p := plan{at: k, kind: kind}
-					o, perr := run(fl, r, in, p)
-					runs++
-					if perr != "" {
-						skipped = append(skipped, fmt.Sprintf("%s %v %s k=%d: %s", fl.name, fl.tags, r, k, perr))
-						continue
+				emitCase := func(p plan, o obs, kth string) {
+					tags := append([]string{"flow=" + fl.name, "router=" + r.String(), "warm=" + emit.Bool(warm)}, fl.tags...)
+					switch {
+					case p.at > 0:
+						tags = append(tags, "plan=at", fmt.Sprintf("k=%d", p.at), "kind="+p.kind, "method="+kth)
+					case p.method != "":
+						tags = append(tags, "plan=method", "kind="+p.kind, "method="+p.method)
+					default:
+						tags = append(tags, "plan=none")
 					}
-					emitCase(p, o, base.journal[k-1])
-				}
-				for _, m := range ms {
-					p := plan{method: m, raw: seen[m], kind: kind}
-					o, perr := run(fl, r, in, p)
-					runs++
-					if perr != "" {
-						skipped = append(skipped, fmt.Sprintf("%s %v %s m=%s: %s", fl.name, fl.tags, r, m, perr))
-						continue
+					w.Add(emit.Case{Input: emit.Ctor("Req", router, fl.coq, emit.Bool(warm), p.coq()), Observed: o.coq(), Tags: tags,
+						Human: map[string]any{"status": o.status, "class": o.class, "error": o.oerr, "creds": o.creds, "journal": o.journal, "hit": o.hit, "single": o.single, "panic": o.panicked, "hang": o.hung}})
+					if survey {
+						fmt.Printf("%-9s %-28s %-40s %-22s -> %d %s %q %v hit=%v %v\n", r, fl.name, strings.Join(fl.tags, ","), p.coq(), o.status, o.class, o.oerr, o.creds, o.hit, o.journal)
 					}
-					emitCase(p, o, m)
+				}
+				emitCase(plan{}, base, "")
+				// "every call of method m fails": in the quick tier only where it is not the same run as
+				// a k-th-call plan, i.e. for methods the fault-free run calls more than once
+				seen := map[string]string{}
+				count := map[string]int{}
+				var ms []string
+				for i, m := range base.journal {
+					count[m]++
+					if _, ok := seen[m]; !ok {
+						seen[m] = base.raw[i]
+					}
+				}
+				for m := range seen {
+					if !cfg.Quick || count[m] > 1 {
+						ms = append(ms, m)
+					}
+				}
+				sort.Strings(ms)
+				for _, kind := range []string{"error", "deadline"} {
+					for k := 1; k <= len(base.journal); k++ {
+						p := plan{at: k, kind: kind}
+						o, perr := run(fl, r, in, p, warm)
+						runs++
+						if perr != "" {
+							skipped = append(skipped, fmt.Sprintf("%s %v %s k=%d: %s", fl.name, fl.tags, r, k, perr))
+							continue
+						}
+						emitCase(p, o, base.journal[k-1])
+					}
+					for _, m := range ms {
+						p := plan{method: m, raw: seen[m], kind: kind}
+						o, perr := run(fl, r, in, p, warm)
+						runs++
+						if perr != "" {
+							skipped = append(skipped, fmt.Sprintf("%s %v %s m=%s: %s", fl.name, fl.tags, r, m, perr))
+							continue
+						}
+						emitCase(p, o, m)
+					}
 				}
 			}
 		}
@@ -388,7 +440,7 @@ func main() {
 		os.Exit(2)
 	}
 	err := w.Close(emit.Meta{Property: "C10", Tier: cfg.Tier, Seed: cfg.Seed, Exhaustive: true,
-		Rule: "Exhaustive enumeration, not sampled: every flow variant (authorize, callback code / id_token / id_token token, token grants code, refresh, client_credentials, jwt-bearer, token-exchange, device; userinfo, introspect, revoke access/refresh incl. JWT access tokens, device authorization, end session, keys, discovery, ready) x both routers x {no fault; k-th storage call fails for k = 1..calls of the fault-free run; every call of method m fails for each m of that run} x kind in {error, deadline}. Fresh store per run, fault-free preparation through the fixture, then ResetJournal + fault plan + the request under test. The seed only varies incidental request values (state, nonce, verifier, user). Non-trivial = a fault plan is set (path != 0); distinct = distinct (flow, router, plan).",
+		Rule:  "Exhaustive enumeration, not sampled: every flow variant (authorize, callback code / id_token / id_token token, token grants code, refresh, client_credentials, jwt-bearer, token-exchange, device; userinfo, introspect, revoke access/refresh incl. JWT access tokens, device authorization, end session, keys, discovery, ready) x both routers x {cold: fresh provider instance; warm: the same instance has served the whole flow once, fault free, before} x {no fault; k-th storage call fails for k = 1..calls of the fault-free run; every call of method m fails for each m of that run} x kind in {error, deadline}. Fresh store and provider per run, fault-free preparation through the fixture, then ResetJournal + fault plan + the request under test. The seed only varies incidental request values (state, nonce, verifier, user). Non-trivial = a fault plan is set (path != 0); distinct = distinct (flow, router, plan).",
 		Extra: map[string]any{"runs": runs}})
 	if err != nil {
 		fmt.Fprintln(os.Stderr, err)
